@@ -28,6 +28,9 @@ def main():
     try:
         common.use_repo()
         common.workdir(pid, wipe=not a.replay)
+        import numpy as _np
+        err0 = dict(_np.geterr())
+        common.package_in_use()
         if a.replay:
             return mod.replay(a.replay, seed)
         return mod.run(a.tier, seed)
@@ -43,6 +46,16 @@ def main():
         import re
         frames = re.findall(r'File "([^"]+)", line (\d+), in (\S+)', text)
         root = os.path.join(common.REPO, "xfab") + os.sep
+        state_changed = False
+        try:
+            import numpy as _np2
+            state_changed = isinstance(ex, FloatingPointError) and dict(_np2.geterr()) != err0
+        except Exception:
+            pass
+        if state_changed and not (frames and frames[-1][0].startswith(root)):
+            # numpy's process-wide error state was switched to 'raise' by the package (the harness never touches it): ordinary
+            # arithmetic on valid inputs now raises, inside the package or in whoever uses its results
+            frames = frames + [(root + "(process-wide numpy error state)", "0", "seterr")]
         if frames and frames[-1][0].startswith(root):
             try:
                 v = common.Verdict(pid, a.tier, seed)
